@@ -19,6 +19,7 @@ import TantivyModel.Proofs.DocSet.DisjunctionScore
 import TantivyModel.Proofs.DocSet.ScoreMoves
 import TantivyModel.Proofs.DocSet.BufferedUnionScoreDanger
 import TantivyModel.Proofs.DocSet.ScoreCompose
+import TantivyModel.Proofs.DocSet.TinySetBridge
 import TantivyModel.Model.DocSet.Tree
 /-!
 # C13 — every DocSet is one sorted sequence under any mix of advance and seek
@@ -972,6 +973,66 @@ theorem C13_src_tinyset_pop_lowest (s : BitVec 64) :
 
 example : ∃ i, mem (0x50#64) i = true := ⟨4, by decide⟩
 example : tinyset_pop_lowest 0x50#64 = (some 4#32, 0x40#64) := by decide +kernel
+
+/-! #### the bucket arrays of the models are the translated `TinySet` words
+
+`Bridge.elems s`: the sorted list of the members of a word; `Bridge.window bs`: the sorted list of the
+set bits `64 * bucket + bit` of a bucket array — the representation `BUnion.State.window` and
+`BitSet.State.all` use. The list operations of the models are what the source functions compute. -/
+open TantivyModel.DocSet.Bridge
+
+/-- `TinySet::pop_lowest` pops the head of the member list of the word -/
+theorem C13_src_tinyset_pop_is_head (s : BitVec 64) :
+    (elems s = [] → tinyset_pop_lowest s = (none, s))
+    ∧ (elems s ≠ [] → ∃ l s', tinyset_pop_lowest s = (some l, s') ∧ elems s = l.toNat :: elems s') :=
+  elems_pop s
+
+/-- refill: `self.bitsets[delta / 64].insert_mut(delta % 64)` is the model's `insertDelta` on the window -/
+theorem C13_src_window_insert (bs : List (BitVec 64)) (k : Nat) (e : BitVec 32) (hk : k < bs.length)
+    (he : e.toNat < 64) :
+    window (bs.set k (tinyset_insert (bs.getD k 0#64) e)) = BUnion.insertDelta (64 * k + e.toNat) (window bs) :=
+  window_insert bs k e hk he
+
+/-- advance_buffered / fill_buffer: `self.bitsets[bucket].pop_lowest()` is the model's `popBucket` -/
+theorem C13_src_window_pop (bs : List (BitVec 64)) (b : Nat) (hb : b < bs.length) :
+    BUnion.popBucket b (window bs) =
+      match tinyset_pop_lowest (bs.getD b 0#64) with
+      | (none, _) => none
+      | (some l, s') => some (64 * b + l.toNat, window (bs.set b s')) :=
+  window_pop bs b hb
+
+/-- `BitSet::tinyset(bucket)`: the model's `bucketOf` is the bucket's word -/
+theorem C13_src_bitset_bucket (ws : List (BitVec 64)) (b : Nat) :
+    BitSet.bucketOf (window ws) b = (elems (ws.getD b 0#64)).map (64 * b + ·) :=
+  bucketOf_window ws b
+
+/-- `BitSetDocSet::seek` into a later bucket:
+`docs.tinyset(bucket).intersect(TinySet::range_greater_or_equal(target % 64))` is the model's
+"members of the target's bucket from the target on" -/
+theorem C13_src_bitset_seek_mask (ws : List (BitVec 64)) (t : Nat) (lo : BitVec 32) (hlo : lo.toNat = t % 64) :
+    (BitSet.bucketOf (window ws) (t / 64)).filter (fun d => decide (d ≥ t))
+      = (elems (tinyset_intersect (ws.getD (t / 64) 0#64) (tinyset_range_greater_or_equal lo))).map
+          (64 * (t / 64) + ·) :=
+  seek_mask ws t lo hlo
+
+/-- **BitSetDocSet over an arbitrary array of `TinySet` words**: no sortedness hypothesis is left — the
+member list of a word array is sorted by construction — and every legal call program observes the
+cursor over exactly the set bits of the words -/
+theorem C13_src_bitset_words_program_equiv (fx : Fix) (ws : List (BitVec 64)) (score : Nat)
+    (hlen : 64 * ws.length ≤ TERMINATED) (prog : List Op)
+    (hlegal : legalProg ⟨window ws, none⟩ prog = true) :
+    implRun (BitSet.ds fx) (BitSet.init (window ws) (64 * ws.length) score) prog
+      = specRun ⟨window ws, none⟩ prog := by
+  have hb : ∀ d ∈ window ws, d < 64 * ws.length := by
+    intro d hd
+    have := ((mem_window ws d).mp hd).1
+    omega
+  exact C13_bitset_program_equiv fx (window ws) (64 * ws.length) score
+    ⟨window_sorted ws, fun x hx => by have := hb x hx; omega⟩ hb prog hlegal
+
+example : window [0x50#64, 0x3#64] = [4, 6, 64, 65] := by decide +kernel
+example : BUnion.popBucket 1 (window [0x50#64, 0x3#64]) = some (64, window [0x50#64, 0x2#64]) := by
+  decide +kernel
 end TinySetSrc
 
 end TantivyModel.C13
